@@ -100,14 +100,10 @@ Section Clauses.
   Lemma unchanged_unaddressed full : forallb (fun y => addressed sch full u y || mem_item y l) l = true.
   Proof. apply forallb_forall. intros y Hy. apply orb_true_iff. right. apply mem_item_In. exact Hy. Qed.
 
-  Lemma unchanged_flag :
-    forallb (fun z => match key_of sch z with
-                      | Some k => match lfind sch k l with Some y => eqb_flag sch y z | None => true end
-                      | None => true end) l = true.
+  Lemma unchanged_flag : forallb (flag_kept sch l) l = true.
   Proof.
-    apply forallb_forall. intros z Hz. destruct (key_of sch z) as [k|] eqn:Ek; [|reflexivity].
-    assert (E : lfind sch k l = Some z) by (apply (lfind_Some sch l k z Hl); split; assumption).
-    rewrite E. apply eqb_flag_refl.
+    apply forallb_forall. intros z Hz. unfold flag_kept. destruct (key_of sch z) as [k|] eqn:Ek; [|reflexivity].
+    apply orb_true_iff. right. apply existsb_exists. exists z. split; [exact Hz|]. rewrite Ek, eqb_key_refl, eqb_flag_refl. reflexivity.
   Qed.
 
   (* ... and for the data after an accepted write *)
@@ -124,15 +120,11 @@ Section Clauses.
     apply mem_item_In. apply K1; assumption.
   Qed.
 
-  Lemma accepted_flag :
-    forallb (fun z => match key_of sch z with
-                      | Some k => match lfind sch k l with Some y => eqb_flag sch y z | None => true end
-                      | None => true end) (spec_write sch false u l) = true.
+  Lemma accepted_flag : forallb (flag_kept sch l) (spec_write sch false u l) = true.
   Proof.
-    apply forallb_forall. intros z Hz. destruct (key_of sch z) as [k|] eqn:Ek; [|reflexivity].
+    apply forallb_forall. intros z Hz. unfold flag_kept. destruct (key_of sch z) as [k|] eqn:Ek; [|reflexivity].
     destruct (K3 z Hz) as [y [Hy [Hk Hf]]]. rewrite Ek in Hk.
-    assert (E : lfind sch k l = Some y) by (apply (lfind_Some sch l k y Hl); split; [exact Hy | symmetry; exact Hk]).
-    rewrite E. exact Hf.
+    apply orb_true_iff. right. apply existsb_exists. exists y. split; [exact Hy|]. rewrite <- Hk, eqb_key_refl, Hf. reflexivity.
   Qed.
 
   Lemma accepted_changeable : okdel sch (u_fd u) l = true -> okdat sch (u_fp u) (u_new u) (spec_del sch (u_fd u) l) = true ->
@@ -170,6 +162,12 @@ Lemma excused_full (b1 b2 b4 : bool) :
            (if b4 then [] else [CL_ACCEPT]) ++ (if true then [] else [CL_ERR]) ++ (if true then [] else [CL_OK]))
           [CL_PROTECTED; CL_FLAG; CL_ACCEPT] = true.
 Proof. destruct b1, b2, b4; reflexivity. Qed.
+
+Lemma excused_weak (b2 b4 b6 : bool) :
+  excused ((if true then [] else [CL_PROTECTED]) ++ (if b2 then [] else [CL_FLAG]) ++ (if true then [] else [CL_UNADDRESSED]) ++
+           (if b4 then [] else [CL_ACCEPT]) ++ (if true then [] else [CL_ERR]) ++ (if b6 then [] else [CL_OK]))
+          [CL_FLAG; CL_ACCEPT; CL_OK; CL_OVERLAP] = true.
+Proof. destruct b2, b4, b6; reflexivity. Qed.
 
 Lemma olist_storel s : olist (store s) = storel s.
 Proof. reflexivity. Qed.
@@ -257,7 +255,25 @@ Proof.
         -- apply Hscope; [reflexivity|]. rewrite Hst. split; [exact Hwf|]. split; [apply (wf_items_lwf (sch s)); exact Hwi | exact Hord].
       * (* partial / selector / delete remote write *)
         destruct (ws_oos ws || negb (wf_update (sch s) false u)) eqn:Eo.
-        { unfold wexcuses. cbn [ws_oos]. split; [apply excused_six | apply Hbase; reflexivity]. }
+        { (* out of scope; a write on the Merge path is still held to PROTECTED, UNADDRESSED and ERR *)
+          cbn [andb]. unfold wexcuses. cbn [ws_oos ws_fullw].
+          destruct (wf_schema (sch s) && weak_shape (sch s) u) eqn:Ew; [|split; [apply excused_six | apply Hbase; reflexivity]].
+          apply andb_true_iff in Ew. destruct Ew as [Hwf0 Hweak].
+          split; [|apply Hbase; reflexivity].
+          revert Eud. unfold update_data. rewrite Efull.
+          change (match store s with Some l => l | None => [] end) with (storel s).
+          destruct (update_list (sch s) true (storel s) (u_new u) (u_fp u) (u_fd u)) as [[d [|]]|] eqn:E;
+            intros Eud; inversion Eud; subst s1 c rest.
+          - cbn [storel store N.eqb orb].
+            assert (H1 : forallb (fun y => changeable (sch s) y || mem_item y d) (storel s) = true).
+            { apply forallb_forall. intros y Hy. destruct (changeable (sch s) y) eqn:Ec; [reflexivity|]. cbn [orb].
+              apply mem_item_In. apply (weak_write (sch s) Hwf0 _ u d Hweak E y Hy). left. exact Ec. }
+            assert (H3 : forallb (fun y => addressed (sch s) false u y || mem_item y d) (storel s) = true).
+            { apply forallb_forall. intros y Hy. destruct (addressed (sch s) false u y) eqn:Ea; [reflexivity|]. cbn [orb].
+              apply mem_item_In. apply (weak_write (sch s) Hwf0 _ u d Hweak E y Hy). right. exact Ea. }
+            rewrite H1, H3. apply excused_weak.
+          - rewrite unchanged_protected, unchanged_unaddressed, eqb_items_refl, orb_true_r. apply excused_weak.
+          - rewrite unchanged_protected, unchanged_unaddressed, eqb_items_refl, orb_true_r. apply excused_weak. }
         apply orb_false_iff in Eo. destruct Eo as [Eo Ewu]. apply negb_false_iff in Ewu.
         destruct (Hin Eo) as [Hwf [Hl Ho]].
         unfold wexcuses. cbn [ws_oos ws_fullw].
